@@ -69,7 +69,7 @@ func c19Gen(rng *rand.Rand, i int) c19Case {
 		}
 		return c19Case{Runes: []rune(sb.String()), Mode: "unescape"}
 	}
-	return c19Case{Runes: rs, Mode: "escape", Opts: rng.Intn(4)}
+	return c19Case{Runes: rs, Mode: "escape", Opts: rng.Intn(10)}
 }
 
 func validRunes(rs []rune) bool {
@@ -163,6 +163,24 @@ func c19Check(c *core.Ctx, cases []c19Case) []core.Outcome {
 		case 3:
 			ro = regexp2.IgnorePatternWhitespace | regexp2.ExplicitCapture | regexp2.Singleline
 			optName = "xns"
+		case 4:
+			ro = regexp2.ECMAScript
+			optName = "ecma"
+		case 5:
+			ro = regexp2.RE2
+			optName = "re2"
+		case 6:
+			ro = regexp2.RightToLeft
+			optName = "rtl"
+		case 7:
+			ro = regexp2.ECMAScript | regexp2.Multiline
+			optName = "ecma+m"
+		case 8:
+			ro = regexp2.RE2 | regexp2.IgnorePatternWhitespace | regexp2.Singleline
+			optName = "re2+xs"
+		case 9:
+			ro = regexp2.Unicode | regexp2.RightToLeft | regexp2.IgnorePatternWhitespace
+			optName = "unicode+rtl+x"
 		}
 		o.Buckets = append(o.Buckets, "opts-"+optName)
 		re, err := regexp2.Compile(`\A(?:`+esc+`)\z`, ro)
